@@ -50,7 +50,7 @@ PROPS = {
     "C01": {
         "prop_files": ['Katib/Props/C01.lean', 'Katib/Props/C01World.lean', 'Katib/Props/C01Parallel.lean'],
         "streams": [('SIM', {'quick': 240, 'thorough': 8000})],
-        "rule": "seeded random schedules of the three real reconcilers on the fake client (1-2 experiments, optionally equally named in two namespaces; maxTrialCount 1-4/unset, parallel 1-3, maxFailed, goal, three resume policies, early stopping, retain, push collector), ops = reconciles with per-kind monotone lagging views (random lag, stalled informers, one kind's cache held for several reconciles - also exactly at the Experiment copy from before its verdict), write-fault masks, abort points, algorithm reply faults (short/long/error, rules RPC error), job outcomes, metric arrival (also after the verdict), early stop, deployment ready, external removal of a completed trial's run object; then fault-free settling to quiescence, a quiescence probe, optionally one or two budget raises each with a second settling, and optionally a teardown in which Trials are deleted and reconciled while the database call or the finalizer write fails; every op's write log and the whole store are compared with the Lean model; a case = one schedule; distinct = distinct op sequence",
+        "rule": "seeded random schedules of the three real reconcilers on the fake client (1-2 experiments, optionally equally named in two namespaces; maxTrialCount 1-4/unset, parallel 1-3, maxFailed, goal, three resume policies, early stopping, retain, push collector), ops = reconciles with per-kind monotone lagging views (random lag, stalled informers, one kind's cache held for several reconciles - also exactly at the Experiment copy from before its verdict), write-fault masks, abort points, algorithm reply faults (short/long/error, rules RPC error), job outcomes, metric arrival (also after the verdict), early stop, deployment ready, external removal of a completed trial's run object, a run-object-creating reconcile cut off before its status write with the job finishing before the retry; scripted RPC failures cycle through gRPC status codes; then fault-free settling to quiescence, a quiescence probe, optionally one or two budget raises each with a second settling, and optionally a teardown in which Trials are deleted and reconciled while the database call or the finalizer write fails; every op's write log and the whole store are compared with the Lean model; a case = one schedule; distinct = distinct op sequence",
         "trusted": ["controller-runtime fake client stands in for the kube-apiserver (rv conflicts, status subresource, AlreadyExists)",
                     "fake algorithm / early-stopping / DB-manager services", "typed reads inside a reconcile come from a snapshot (informer cache), run objects are read live"],
         "modelled": ["ReconcileExperiment.Reconcile / ReconcileSuggestion.Reconcile / ReconcileTrial.Reconcile and helpers as Katib.Ctl.expPlan / sugPlan / trialPlan",
@@ -62,7 +62,7 @@ PROPS = {
     "C04": {
         "prop_files": ['Katib/Props/C04.lean', 'Katib/Props/C04Quiescent.lean'],
         "streams": [('SIM', {'quick': 240, 'thorough': 8000}), ('C04D', {'quick': 150, 'thorough': 3000})],
-        "rule": "seeded random schedules of the three real reconcilers on the fake client (1-2 experiments, optionally equally named in two namespaces; maxTrialCount 1-4/unset, parallel 1-3, maxFailed, goal, three resume policies, early stopping, retain, push collector), ops = reconciles with per-kind monotone lagging views (random lag, stalled informers, one kind's cache held for several reconciles - also exactly at the Experiment copy from before its verdict), write-fault masks, abort points, algorithm reply faults (short/long/error, rules RPC error), job outcomes, metric arrival (also after the verdict), early stop, deployment ready, external removal of a completed trial's run object; then fault-free settling to quiescence, a quiescence probe, optionally one or two budget raises each with a second settling, and optionally a teardown in which Trials are deleted and reconciled while the database call or the finalizer write fails; every op's write log and the whole store are compared with the Lean model; a case = one schedule; distinct = distinct op sequence; stream C04D: parallelTrialCount lowered right after a batch of Trials was created (optionally one of them already finished), the real deleteTrials branch, then the three real controllers to quiescence; only the outcome is judged (verdict reached, suggestionCount = requests = number of assignments after the deletion) - this branch is outside the Lean controller model",
+        "rule": "seeded random schedules of the three real reconcilers on the fake client (1-2 experiments, optionally equally named in two namespaces; maxTrialCount 1-4/unset, parallel 1-3, maxFailed, goal, three resume policies, early stopping, retain, push collector), ops = reconciles with per-kind monotone lagging views (random lag, stalled informers, one kind's cache held for several reconciles - also exactly at the Experiment copy from before its verdict), write-fault masks, abort points, algorithm reply faults (short/long/error, rules RPC error), job outcomes, metric arrival (also after the verdict), early stop, deployment ready, external removal of a completed trial's run object, a run-object-creating reconcile cut off before its status write with the job finishing before the retry; scripted RPC failures cycle through gRPC status codes; then fault-free settling to quiescence, a quiescence probe, optionally one or two budget raises each with a second settling, and optionally a teardown in which Trials are deleted and reconciled while the database call or the finalizer write fails; every op's write log and the whole store are compared with the Lean model; a case = one schedule; distinct = distinct op sequence; stream C04D: parallelTrialCount lowered right after a batch of Trials was created (optionally one of them already finished), the real deleteTrials branch, then the three real controllers to quiescence; only the outcome is judged (verdict reached, suggestionCount = requests = number of assignments after the deletion) - this branch is outside the Lean controller model",
         "trusted": ["controller-runtime fake client stands in for the kube-apiserver (rv conflicts, status subresource, AlreadyExists)",
                     "fake algorithm / early-stopping / DB-manager services", "typed reads inside a reconcile come from a snapshot (informer cache), run objects are read live"],
         "modelled": ["ReconcileExperiment.Reconcile / ReconcileSuggestion.Reconcile / ReconcileTrial.Reconcile and helpers as Katib.Ctl.expPlan / sugPlan / trialPlan",
@@ -74,7 +74,7 @@ PROPS = {
     "C06": {
         "prop_files": ['Katib/Props/C06.lean', 'Katib/Props/C06World.lean', 'Katib/Props/C06Running.lean', 'Katib/Props/C06Objective.lean'],
         "streams": [('SIM', {'quick': 240, 'thorough': 8000})],
-        "rule": "seeded random schedules of the three real reconcilers on the fake client (1-2 experiments, optionally equally named in two namespaces; maxTrialCount 1-4/unset, parallel 1-3, maxFailed, goal, three resume policies, early stopping, retain, push collector), ops = reconciles with per-kind monotone lagging views (random lag, stalled informers, one kind's cache held for several reconciles - also exactly at the Experiment copy from before its verdict), write-fault masks, abort points, algorithm reply faults (short/long/error, rules RPC error), job outcomes, metric arrival (also after the verdict), early stop, deployment ready, external removal of a completed trial's run object; then fault-free settling to quiescence, a quiescence probe, optionally one or two budget raises each with a second settling, and optionally a teardown in which Trials are deleted and reconciled while the database call or the finalizer write fails; every op's write log and the whole store are compared with the Lean model; a case = one schedule; distinct = distinct op sequence",
+        "rule": "seeded random schedules of the three real reconcilers on the fake client (1-2 experiments, optionally equally named in two namespaces; maxTrialCount 1-4/unset, parallel 1-3, maxFailed, goal, three resume policies, early stopping, retain, push collector), ops = reconciles with per-kind monotone lagging views (random lag, stalled informers, one kind's cache held for several reconciles - also exactly at the Experiment copy from before its verdict), write-fault masks, abort points, algorithm reply faults (short/long/error, rules RPC error), job outcomes, metric arrival (also after the verdict), early stop, deployment ready, external removal of a completed trial's run object, a run-object-creating reconcile cut off before its status write with the job finishing before the retry; scripted RPC failures cycle through gRPC status codes; then fault-free settling to quiescence, a quiescence probe, optionally one or two budget raises each with a second settling, and optionally a teardown in which Trials are deleted and reconciled while the database call or the finalizer write fails; every op's write log and the whole store are compared with the Lean model; a case = one schedule; distinct = distinct op sequence",
         "trusted": ["controller-runtime fake client stands in for the kube-apiserver (rv conflicts, status subresource, AlreadyExists)",
                     "fake algorithm / early-stopping / DB-manager services", "typed reads inside a reconcile come from a snapshot (informer cache), run objects are read live"],
         "modelled": ["ReconcileExperiment.Reconcile / ReconcileSuggestion.Reconcile / ReconcileTrial.Reconcile and helpers as Katib.Ctl.expPlan / sugPlan / trialPlan",
@@ -86,7 +86,7 @@ PROPS = {
     "C07": {
         "prop_files": ['Katib/Props/C07.lean', 'Katib/Props/C07World.lean', 'Katib/Props/C07Named.lean'],
         "streams": [('SIM', {'quick': 240, 'thorough': 8000}), ('C07J', {'quick': 1500, 'thorough': 30000})],
-        "rule": "seeded random schedules of the three real reconcilers on the fake client (1-2 experiments, optionally equally named in two namespaces; maxTrialCount 1-4/unset, parallel 1-3, maxFailed, goal, three resume policies, early stopping, retain, push collector), ops = reconciles with per-kind monotone lagging views (random lag, stalled informers, one kind's cache held for several reconciles - also exactly at the Experiment copy from before its verdict), write-fault masks, abort points, algorithm reply faults (short/long/error, rules RPC error), job outcomes, metric arrival (also after the verdict), early stop, deployment ready, external removal of a completed trial's run object; then fault-free settling to quiescence, a quiescence probe, optionally one or two budget raises each with a second settling, and optionally a teardown in which Trials are deleted and reconciled while the database call or the finalizer write fails; every op's write log and the whole store are compared with the Lean model; a case = one schedule; distinct = distinct op sequence; stream C07J: hand-made Trials whose run spec carries the Trial's name and {the Trial's, another, no} namespace and {no, a plain, a controller} owner reference of its own, three reconciles of the real trial controller on the fake client, all Jobs of all namespaces judged",
+        "rule": "seeded random schedules of the three real reconcilers on the fake client (1-2 experiments, optionally equally named in two namespaces; maxTrialCount 1-4/unset, parallel 1-3, maxFailed, goal, three resume policies, early stopping, retain, push collector), ops = reconciles with per-kind monotone lagging views (random lag, stalled informers, one kind's cache held for several reconciles - also exactly at the Experiment copy from before its verdict), write-fault masks, abort points, algorithm reply faults (short/long/error, rules RPC error), job outcomes, metric arrival (also after the verdict), early stop, deployment ready, external removal of a completed trial's run object, a run-object-creating reconcile cut off before its status write with the job finishing before the retry; scripted RPC failures cycle through gRPC status codes; then fault-free settling to quiescence, a quiescence probe, optionally one or two budget raises each with a second settling, and optionally a teardown in which Trials are deleted and reconciled while the database call or the finalizer write fails; every op's write log and the whole store are compared with the Lean model; a case = one schedule; distinct = distinct op sequence; stream C07J: hand-made Trials whose run spec carries the Trial's name and {the Trial's, another, no} namespace and {no, a plain, a controller} owner reference of its own, three reconciles of the real trial controller on the fake client, all Jobs of all namespaces judged",
         "trusted": ["controller-runtime fake client stands in for the kube-apiserver (rv conflicts, status subresource, AlreadyExists)",
                     "fake algorithm / early-stopping / DB-manager services", "typed reads inside a reconcile come from a snapshot (informer cache), run objects are read live"],
         "modelled": ["ReconcileExperiment.Reconcile / ReconcileSuggestion.Reconcile / ReconcileTrial.Reconcile and helpers as Katib.Ctl.expPlan / sugPlan / trialPlan",
@@ -98,7 +98,7 @@ PROPS = {
     "C08": {
         "prop_files": ['Katib/Props/C08.lean', 'Katib/Props/C01World.lean', 'Katib/Props/C08Sync.lean', 'Katib/Props/C08World.lean'],
         "streams": [('SIM', {'quick': 240, 'thorough': 8000}), ('C08S', {'quick': 3000, 'thorough': 100000})],
-        "rule": "seeded random schedules of the three real reconcilers on the fake client (1-2 experiments, optionally equally named in two namespaces; maxTrialCount 1-4/unset, parallel 1-3, maxFailed, goal, three resume policies, early stopping, retain, push collector), ops = reconciles with per-kind monotone lagging views (random lag, stalled informers, one kind's cache held for several reconciles - also exactly at the Experiment copy from before its verdict), write-fault masks, abort points, algorithm reply faults (short/long/error, rules RPC error), job outcomes, metric arrival (also after the verdict), early stop, deployment ready, external removal of a completed trial's run object; then fault-free settling to quiescence, a quiescence probe, optionally one or two budget raises each with a second settling, and optionally a teardown in which Trials are deleted and reconciled while the database call or the finalizer write fails; every op's write log and the whole store are compared with the Lean model; a case = one schedule; distinct = distinct op sequence; stream C08S: sequences of 1-6 real SyncAssignments calls with growing requests against a service that proposes points from a 2x2 space and (3 of 4 cases) leaves the naming to Katib, replies ok/short/long/error; names canonicalised by first appearance; model Katib.Drv.syncRound",
+        "rule": "seeded random schedules of the three real reconcilers on the fake client (1-2 experiments, optionally equally named in two namespaces; maxTrialCount 1-4/unset, parallel 1-3, maxFailed, goal, three resume policies, early stopping, retain, push collector), ops = reconciles with per-kind monotone lagging views (random lag, stalled informers, one kind's cache held for several reconciles - also exactly at the Experiment copy from before its verdict), write-fault masks, abort points, algorithm reply faults (short/long/error, rules RPC error), job outcomes, metric arrival (also after the verdict), early stop, deployment ready, external removal of a completed trial's run object, a run-object-creating reconcile cut off before its status write with the job finishing before the retry; scripted RPC failures cycle through gRPC status codes; then fault-free settling to quiescence, a quiescence probe, optionally one or two budget raises each with a second settling, and optionally a teardown in which Trials are deleted and reconciled while the database call or the finalizer write fails; every op's write log and the whole store are compared with the Lean model; a case = one schedule; distinct = distinct op sequence; stream C08S: sequences of 1-6 real SyncAssignments calls with growing requests against a service that proposes points from a 2x2 space and (3 of 4 cases) leaves the naming to Katib, replies ok/short/long/error; names canonicalised by first appearance; model Katib.Drv.syncRound",
         "trusted": ["controller-runtime fake client stands in for the kube-apiserver (rv conflicts, status subresource, AlreadyExists)",
                     "fake algorithm / early-stopping / DB-manager services", "typed reads inside a reconcile come from a snapshot (informer cache), run objects are read live"],
         "modelled": ["ReconcileExperiment.Reconcile / ReconcileSuggestion.Reconcile / ReconcileTrial.Reconcile and helpers as Katib.Ctl.expPlan / sugPlan / trialPlan",
@@ -110,7 +110,7 @@ PROPS = {
     "C09": {
         "prop_files": ['Katib/Props/C09.lean'],
         "streams": [('SIM', {'quick': 240, 'thorough': 8000}), ('C08S', {'quick': 2000, 'thorough': 60000})],
-        "rule": "seeded random schedules of the three real reconcilers on the fake client (1-2 experiments, optionally equally named in two namespaces; maxTrialCount 1-4/unset, parallel 1-3, maxFailed, goal, three resume policies, early stopping, retain, push collector), ops = reconciles with per-kind monotone lagging views (random lag, stalled informers, one kind's cache held for several reconciles - also exactly at the Experiment copy from before its verdict), write-fault masks, abort points, algorithm reply faults (short/long/error, rules RPC error), job outcomes, metric arrival (also after the verdict), early stop, deployment ready, external removal of a completed trial's run object; then fault-free settling to quiescence, a quiescence probe, optionally one or two budget raises each with a second settling, and optionally a teardown in which Trials are deleted and reconciled while the database call or the finalizer write fails; every op's write log and the whole store are compared with the Lean model; a case = one schedule; distinct = distinct op sequence; stream C08S (sequences of real SyncAssignments calls, request steps of up to 11): the request numbers the service receives are requests minus suggestionCount and requests",
+        "rule": "seeded random schedules of the three real reconcilers on the fake client (1-2 experiments, optionally equally named in two namespaces; maxTrialCount 1-4/unset, parallel 1-3, maxFailed, goal, three resume policies, early stopping, retain, push collector), ops = reconciles with per-kind monotone lagging views (random lag, stalled informers, one kind's cache held for several reconciles - also exactly at the Experiment copy from before its verdict), write-fault masks, abort points, algorithm reply faults (short/long/error, rules RPC error), job outcomes, metric arrival (also after the verdict), early stop, deployment ready, external removal of a completed trial's run object, a run-object-creating reconcile cut off before its status write with the job finishing before the retry; scripted RPC failures cycle through gRPC status codes; then fault-free settling to quiescence, a quiescence probe, optionally one or two budget raises each with a second settling, and optionally a teardown in which Trials are deleted and reconciled while the database call or the finalizer write fails; every op's write log and the whole store are compared with the Lean model; a case = one schedule; distinct = distinct op sequence; stream C08S (sequences of real SyncAssignments calls, request steps of up to 11): the request numbers the service receives are requests minus suggestionCount and requests",
         "trusted": ["controller-runtime fake client stands in for the kube-apiserver (rv conflicts, status subresource, AlreadyExists)",
                     "fake algorithm / early-stopping / DB-manager services", "typed reads inside a reconcile come from a snapshot (informer cache), run objects are read live"],
         "modelled": ["ReconcileExperiment.Reconcile / ReconcileSuggestion.Reconcile / ReconcileTrial.Reconcile and helpers as Katib.Ctl.expPlan / sugPlan / trialPlan",
@@ -122,7 +122,7 @@ PROPS = {
     "C16": {
         "prop_files": ['Katib/Props/C16.lean', 'Katib/Props/C16World.lean', 'Katib/Props/C16Succeeded.lean'],
         "streams": [('SIM', {'quick': 240, 'thorough': 8000})],
-        "rule": "seeded random schedules of the three real reconcilers on the fake client (1-2 experiments, optionally equally named in two namespaces; maxTrialCount 1-4/unset, parallel 1-3, maxFailed, goal, three resume policies, early stopping, retain, push collector), ops = reconciles with per-kind monotone lagging views (random lag, stalled informers, one kind's cache held for several reconciles - also exactly at the Experiment copy from before its verdict), write-fault masks, abort points, algorithm reply faults (short/long/error, rules RPC error), job outcomes, metric arrival (also after the verdict), early stop, deployment ready, external removal of a completed trial's run object; then fault-free settling to quiescence, a quiescence probe, optionally one or two budget raises each with a second settling, and optionally a teardown in which Trials are deleted and reconciled while the database call or the finalizer write fails; every op's write log and the whole store are compared with the Lean model; a case = one schedule; distinct = distinct op sequence",
+        "rule": "seeded random schedules of the three real reconcilers on the fake client (1-2 experiments, optionally equally named in two namespaces; maxTrialCount 1-4/unset, parallel 1-3, maxFailed, goal, three resume policies, early stopping, retain, push collector), ops = reconciles with per-kind monotone lagging views (random lag, stalled informers, one kind's cache held for several reconciles - also exactly at the Experiment copy from before its verdict), write-fault masks, abort points, algorithm reply faults (short/long/error, rules RPC error), job outcomes, metric arrival (also after the verdict), early stop, deployment ready, external removal of a completed trial's run object, a run-object-creating reconcile cut off before its status write with the job finishing before the retry; scripted RPC failures cycle through gRPC status codes; then fault-free settling to quiescence, a quiescence probe, optionally one or two budget raises each with a second settling, and optionally a teardown in which Trials are deleted and reconciled while the database call or the finalizer write fails; every op's write log and the whole store are compared with the Lean model; a case = one schedule; distinct = distinct op sequence",
         "trusted": ["controller-runtime fake client stands in for the kube-apiserver (rv conflicts, status subresource, AlreadyExists)",
                     "fake algorithm / early-stopping / DB-manager services", "typed reads inside a reconcile come from a snapshot (informer cache), run objects are read live"],
         "modelled": ["ReconcileExperiment.Reconcile / ReconcileSuggestion.Reconcile / ReconcileTrial.Reconcile and helpers as Katib.Ctl.expPlan / sugPlan / trialPlan",
@@ -153,7 +153,7 @@ PROPS = {
         "rule": "stored experiment (budget values, resume policy, status.trials 0-6, completion state none/MaxTrialsReached/GoalReached/Failed) x update: no spec edit, "
                 "budget edits (change/remove any of the three), or an edit of one place of the spec enumerated by reflection over ExperimentSpec (every leaf, pointer->nil, "
                 "slice drop, map add, the unstructured template), re-defaulted as the mutating webhook does; case k edits path k mod #paths so every path is covered; "
-                "non-trivial = the spec was edited",
+                "non-trivial = the spec was edited; every update also goes as an AdmissionRequest through ExperimentValidator.Handle (oldObject = the stored object, while the handler's own client holds an outdated copy); one case in eight validates against a katib-config from which the experiment's algorithm has been removed since creation",
         "trusted": ["equality.Semantic.DeepEqual is an oracle for 'the rest of the spec is unchanged'", "IsCompletedExperimentRestartable evaluated Go-side (modelled and proved in C03/C16)"],
         "modelled": ["the oldInst != nil branch of DefaultValidator.ValidateExperiment as Katib.Upd.updErrs/admitUpdate"],
         "level_text": "Lean theorems C15_iff (admitted <=> untouched, or only budget fields differ + restartable-if-completed + maxTrialCount > status.trials), C15_noop, "
@@ -197,7 +197,7 @@ PROPS = {
                 "volumes, labels incl. a stale trial label) x Trials (seven collector kinds incl. Custom with a collector named like the primary container and Push; primaryPodLabels "
                 "nil/matching/mismatching; stop rules nil/empty/1-2; filters; file and directory sources) x environment (katib-config collector entry present/absent, waitAllProcesses, "
                 "Experiment present/absent, Suggestion present/absent, suggestion_trial_dir) through the real SidecarInjector.MutationRequired + Mutate on a fake client and, for the same pod as JSON, through the real admission handler SidecarInjector.Handle (the returned JSON patch is applied and must give the same pod; refusals must coincide); every fourth case "
-                "drives MutationRequired over a generated acyclic ownership graph (Job/ReplicaSet/Deployment/StatefulSet objects, dangling owners, Trial references of other API groups)",
+                "drives MutationRequired over a generated acyclic ownership graph (Job/ReplicaSet/Deployment/StatefulSet objects, dangling owners, Trial references of other API groups); the pod template sets shareProcessNamespace to nothing / true / false",
         "trusted": ["sigs.k8s.io/yaml round trip of the generated katib-config", "fake client as API server", "filepath.Dir / filepath.Join / env-derived DB manager address computed Go-side and passed in"],
         "modelled": ["SidecarInjector.Mutate, getMetricsCollectorContainer, getMetricsCollectorArgs, mutateMetricsCollectorVolume, mutateSuggestionVolume, mutatePodMetadata, mutatePodEnv, "
                      "wrapWorkerContainer, isPrimaryPod, needWrapWorkerContainer, getKatibJob as Katib.Pod.*"],
@@ -236,7 +236,7 @@ PROPS = {
                 "bounds and no / dividing / non-dividing step, categorical incl. spaces/commas/non-ASCII, discrete) x random|tpe|cmaes|sobol with settings (random_state, n_startup_trials 1-3, "
                 "n_ei_candidates, sigma, restart_strategy) x 2-6 rounds (thorough: up to 11) of the real SuggestionService.GetSuggestions: Katib creates trials from any subset of the unclaimed "
                 "assignments in any order under random names, states move created->running->{succeeded with finite values incl. 1e300/-0, failed, killed, early-stopped, metrics-unavailable, "
-                "unknown} and sometimes arbitrarily, each request carries all (sometimes a subset) of the trials shuffled and asks for 0-3 assignments; a case = one service lifetime",
+                "unknown} and sometimes arbitrarily, each request carries all (sometimes a subset) of the trials shuffled and asks for 0-3 assignments; a case = one service lifetime; feasibleSpace.distribution unset or any of the five values",
         "trusted": ["goptuna samplers (third party, floating point, random): their output is an input of the model and is judged by the feasibility oracle",
                     "strconv round trip of the returned values (assumed by comparing canonical strings; exercised on every re-identified trial)"],
         "modelled": ["SuggestionService.GetSuggestions bookkeeping: toGoptunaState, syncTrials, findGoptunaTrialIDByParam, sampleNextParam's trial creation, trialMapping, as Katib.Gop.request; "
@@ -269,7 +269,7 @@ PROPS = {
         "rule": "every route of the UI server except the index/static ones and fetch_trial_logs (real clientset) x {user header present/absent} x USERID_PREFIX variants x RBAC script (also: only the first review of a request allowed = resource-granular RBAC; second review fails) "
                 "{deny all, allow all, allow namespace a, allow namespace b} x request namespace {a, b}, served by the real handlers through httptest on a fake client holding "
                 "experiments, trials, suggestions and template ConfigMaps in two namespaces; SubjectAccessReviews are answered by the script, every API call is recorded; case k uses "
-                "route k mod #routes so all routes are covered",
+                "route k mod #routes so all routes are covered; body routes optionally carry a stray namespace query parameter naming the other namespace",
         "trusted": ["the go/ast route/handler translator (kvh extract ui)", "fake client + interceptor as API server and SubjectAccessReview oracle"],
         "modelled": ["per route: ordered IsAuthorized calls with guard shape and data accesses with namespace expression (regenerated table Katib.Gen.uiRoutes); Katib.Ui.guardedFrom / exec / gateStatus"],
         "level_text": "partial: C20_guarded_sound (a statically guarded handler touches only namespaces with an allowing review and nothing after 401/403) and C20_no_header_no_access for every "
@@ -284,7 +284,7 @@ PROPS = {
         "rule": "template trees (depth <= 4, placeholders repeated and nested in maps/arrays, literals with $, ${, }, <&>, non-ASCII, backslashes, partial placeholder syntax) x 1-4 declared "
                 "trial parameters (free-form names: letters, '-', '.', '/', '~', '+', non-ASCII) referencing assignments or trial metadata (Name, Namespace, Kind, APIVersion, Labels[k], Annotations[k], illegal ones) x assignments (clean values; "
                 "rarely missing/extra) through the real GetRunSpecWithHyperParameters from an inline trialSpec or a ConfigMap (JSON, or YAML whose scalars are re-typed by the YAML engine: the oracle there is textual substitution then YAML parse; a YAML text that a value would break falls back to JSON); plus batches of 1-4 assignments turned into "
-                "Trials by the real getTrialInstance on one Experiment object (labels, owner, rules); distinct = distinct op line",
+                "Trials by the real getTrialInstance on one Experiment object (labels, owner, rules); distinct = distinct op line; the Experiment carries typed spec.parameters for the referenced names (int / double / categorical / discrete) and values also come in float notation (100.0, 0.0, 1e2, +5, 007)",
         "trusted": ["JSON/YAML (de)serialisation (ConvertUnstructuredToString / ConvertStringToUnstructured) and the reference regexps are oracles",
                     "the harness's independent tree substitution (tree=) is the oracle for ConfigMap/YAML templates"],
         "modelled": ["DefaultGenerator.applyParameters (placeholder map, count check, strings.Replace loop) as Katib.Tpl.placeholders/applyAll/replaceAll; getTrialInstance as Katib.Tpl.trialInstance"],
